@@ -208,6 +208,51 @@ def shard_malformed(args):
     return col
 
 
+def shard_lookalike(args):
+    """Multi-ID messages (moves, deletes, swaps) in which one listed ID comes a second time as a
+    look-alike - the same text padded with white space - at every position of the list, and as the
+    target.  By exact comparison the look-alike names nothing; whatever the tree makes of it, a merge
+    that raises must leave the running order as it was."""
+    import itertools
+    from vlib import build as B
+    from vlib.findings import Collector
+    col = Collector(PROP)
+    sids = ['S1', 'S2', 'S3', 'S4', 'S5']
+    iids = ['I1', 'I2', 'I3', 'I4']
+    ro_xml = gen.ro_with_layout(sids, 'mixed', items_for={'S2': iids})
+    pads = [lambda x: ' ' + x, lambda x: x + ' ', lambda x: x + '\n', lambda x: '\t' + x + ' ']
+    bodies = []
+    for pad in pads:
+        for src in (['S3', 'S4'], ['S4', 'S3', 'S5'], ['S4']):
+            for dup, pos in itertools.product(src, range(len(src) + 1)):
+                lst = list(src)
+                lst.insert(pos, pad(dup))
+                bodies += [B.ea_story_move('RO1', 'S1', lst), B.ea_story_move('RO1', '', lst),
+                           B.ea_story_delete('RO1', lst), B.story_delete('RO1', lst)]
+            bodies += [B.ea_story_move('RO1', pad('S2'), src), B.ea_story_move('RO1', 'S2', src + [pad('S2')]),
+                       B.ea_story_move('RO1', pad(src[0]), src), B.story_move('RO1', [src[0], pad(src[0])]),
+                       B.story_move('RO1', [pad('S3'), 'S1']),
+                       B.ea_story_swap('RO1', src[0], pad(src[0])), B.ea_story_swap('RO1', pad('S1'), 'S3')]
+        for src in (['I3', 'I4'], ['I4', 'I2', 'I3'], ['I4']):
+            for dup, pos in itertools.product(src, range(len(src) + 1)):
+                lst = list(src)
+                lst.insert(pos, pad(dup))
+                bodies += [B.ea_item_move('RO1', 'S2', 'I1', lst), B.item_move_multiple('RO1', 'S2', lst + ['I1']),
+                           B.item_move_multiple('RO1', 'S2', lst + ['']),
+                           B.item_delete('RO1', 'S2', lst), B.ea_item_delete('RO1', 'S2', lst)]
+            bodies += [B.ea_item_move('RO1', 'S2', pad('I1'), src), B.ea_item_move('RO1', pad('S2'), 'I1', src),
+                       B.item_move_multiple('RO1', 'S2', src + [pad(src[0])]),
+                       B.ea_item_swap('RO1', 'S2', src[0], pad(src[0])), B.ea_item_swap('RO1', pad('S2'), 'I1', 'I2')]
+    for body in bodies:
+        case = {'ro_xml': ro_xml, 'msg_xml': B.tostring(B.envelope(body, 3200))}
+        ev = drive.eval_step(case)
+        raised = ev.obs.exc is not None
+        col.record(case, raised, ['look-alike-id', 'look-alike:raised' if raised else 'look-alike:accepted'],
+                   judge(ev), key=drive.ev_key(ev))
+    col.scopes.append(f'look-alike IDs: {len(bodies)} moves / deletes / swaps with a padded copy of a listed ID at every position')
+    return col
+
+
 def run(tier, seed, procs):
     quick = tier == 'quick'
     N, M, K = (3, 3, 3) if quick else (5, 5, 4)
@@ -225,6 +270,7 @@ def run(tier, seed, procs):
                            [(MOD, runs, steps, seed * 1000 + 500 + i, {'faults': 'heavy'})
                             for i in range(hs)], procs)
     cols += drive.pool_map(shard_malformed, [None], 1)
+    cols += drive.pool_map(shard_lookalike, [None], 1)
     cs, cn = (4, 60) if quick else (16, 3000)
     cols += drive.pool_map(shard_collections, [(cn, seed * 1000 + 800 + i) for i in range(cs)], procs)
     cols += drive.pool_map(drive.shard_enum_stale, [(MOD, 'story', i, 2 if quick else 3) for i in range(11)], procs)
